@@ -185,9 +185,19 @@ BUILT = {
             'Sets are assumed to be created by set(...)/displays/comprehensions inside bespokeasm; int-only sets are not permuted; dict '
             'order is insertion order. Schedule violations are confirmed by replaying the schedule in a fresh process.',
             'DESIGN.md 3/C15'),
+    'C20': ('exploration',
+            'exhaustive product of ISA vocabularies x editor targets; generated packages parsed and their category patterns applied to word lists',
+            'Every vocabulary of 1..2 (thorough 3) mnemonics, <=1 (2) macros, <=2 (3) registers and <=1 (2) predefined names from pools '
+            'built to collide, with empty categories, is turned into an ISA definition and both real generators are run; every '
+            'generated file must parse in its format (JSON / YAML / property list / XML / zip), contain no ##PLACEHOLDER##, and '
+            'the category patterns extracted from the grammar must match every configured word in full and no near-miss identifier '
+            'or word of another category; directive, data-type, preprocessor and function keywords must be matched by their patterns.',
+            'Python re is assumed to agree with the editors\' regex engines on the constructs used. Candidate violations are confirmed '
+            'through `bespokeasm generate-extension` in a subprocess.',
+            'DESIGN.md 3/C20'),
 }
 
-NOT_BUILT_REASON = 'check not built yet (work in progress in this session); no claim made'
+NOT_BUILT_REASON = 'check not built'
 
 
 def main():
